@@ -435,6 +435,13 @@ def lab_run(task, spec, args):
     _th = _threading.Thread(target=lambda: task.logger.info(f'LABMSG uid={uid} n=1b task={full}'))
     _th.start()
     _th.join()
+    if int(h[:2], 16) % 4 == 0:
+        # while this task runs, another task object of the same class and config is created (a chain built inside run, a helper thread
+        # preparing the next step): creating a task object is no event for the running one
+        try:
+            type(task)(task.get_config())
+        except Exception:
+            pass
     _save_record(task, rec, {'lab_uid': uid, 'n': 1})
     _save_record(task, rec, 0)        # falsy records are records too
     _save_record(task, rec, {})
